@@ -41,6 +41,9 @@ type node struct {
 	u    uint64
 	f    float64
 	fexp bool // spell the float with an exponent (same spelling in all three formats)
+	// sp, when set, gives the number its own legal spelling per format (JSON, YAML, TOML); every
+	// spelling denotes the same number (spell_test.go). nil: the canonical spelling.
+	sp *[3]string
 	s    string
 	arr  []*node
 	ents []ent
